@@ -6,11 +6,13 @@
    ElementTree structure of Base/ImscXml.v.  Statement order follows the code; Python exceptions
    that leave to_model are explicit outcomes (PErr 1 = TypeError from None - Fraction in a seq
    container, PErr 2 = ZeroDivisionError from a zero frame / tick rate).
-   Style attributes are not interpreted here (Model/ImscStyles.v); a <set> records the first
-   attribute accepted by the [e_style_ok] oracle of the environment together with its interval.
+   Styling (nested styles of regions, referential and specified styling, <set>) is applied at the
+   points where the code applies it, with the functions of Model/ImscStyles.v; reading a style value
+   and the model's validity test are functions of the environment (PErr 5 = ValueError from set_style
+   during referential or nested styling).
    Not modelled: log records; children of br / set / region elements other than region/style and
    region/set (never valid TTML) inherit the language of the grandparent. *)
-From TT Require Import Base.Prelude Base.ImscXml Model.ImscTime.
+From TT Require Import Base.Prelude Base.ImscXml Model.ImscTime Model.ImscStyles.
 From Coq Require Import QArith Qminmax.
 Local Open Scope Z_scope.
 
@@ -45,10 +47,12 @@ Definition classify (tag : qname) (attrs : list (qname * text)) : option ekind :
   if qname_eqb tag T_region then Some KRegion else None.
 
 Record env := mkEnv {
-  e_tr : Z ;                           (* temporal_context.tick_rate *)
-  e_fr : Q ;                           (* temporal_context.frame_rate *)
-  e_regions : list text ;              (* ids registered in the document so far *)
-  e_style_ok : qname -> text -> bool   (* the attribute is a style property and its value is accepted *)
+  e_tr : Z ;                                        (* temporal_context.tick_rate *)
+  e_fr : Q ;                                        (* temporal_context.frame_rate *)
+  e_regions : list text ;                           (* ids registered in the document so far *)
+  e_to_model : qname -> text -> option (Z * sv) ;   (* StyleProperty.to_model; None: not a style attribute, or ValueError / KeyError *)
+  e_valid : Z -> sv -> bool ;                       (* StyleProperty.validate *)
+  e_styles : list sty                               (* the flattened <styling> table *)
 }.
 
 (* what a child reads from its parent's parsing context *)
@@ -95,7 +99,7 @@ Definition read_lang (attrs : list (qname * text)) (parent : text) : text :=
 (* make_anonymous_span *)
 Definition anon_span (k : ekind) (preserve : bool) (lang : text) (t : text) : mnode :=
   if ekind_eqb k KSpan then MText t
-  else MElem KSpan None None None preserve lang None [] [MText t].
+  else MElem KSpan None None None preserve lang None [] [] [MText t].
 
 (* model.py push_child type guards *)
 Definition child_ok (k c : ekind) : bool :=
@@ -141,27 +145,35 @@ Definition opt_or_zero (o : option Q) : Q := match o with Some q => q | None => 
 Definition is_style_elem (c : xml) : bool := qname_eqb (x_tag c) T_style.
 
 (* state of the children loop *)
-Inductive lres := LErr (code : Z) | LDone (iend : option Q) (kids : list mnode) (anims : list anim) (pf : bool).
+Inductive lres := LErr (code : Z) | LDone (iend : option Q) (kids : list mnode) (anims : list anim) (pf : bool) (nst : sdict).
 
 (* the children loop of process, for a parent of class k whose children are read by [proc] *)
 Section Children.
   Variable proc : pctx -> xml -> pres.
+  Variable to_model : qname -> text -> option (Z * sv).
+  Variable valid : Z -> sv -> bool.
   Variables (k : ekind) (par : bool) (dbegin : Q) (preserve : bool) (lang : text).
 
-  Fixpoint children_loop (l : list xml) (iend : option Q) (kids : list mnode) (anims : list anim) (pf : bool)
+  (* [nst]: the styles of the model element so far (only nested styling can have set any) *)
+  Fixpoint children_loop (l : list xml) (iend : option Q) (kids : list mnode) (anims : list anim) (pf : bool) (nst : sdict)
                          {struct l} : lres :=
     match l with
-    | [] => LDone iend kids anims pf
+    | [] => LDone iend kids anims pf nst
     | c :: l' =>
-        (* nested styling of a region does not take part in temporal processing (`continue`) *)
-        if ekind_eqb k KRegion && is_style_elem c then children_loop l' iend kids anims pf else
+        (* nested styling of a region: merged set-if-absent, no part in temporal processing (`continue`) *)
+        if ekind_eqb k KRegion && is_style_elem c then
+          match merge_absent valid (collect to_model (x_attrs c) []) nst with
+          | Some nst' => children_loop l' iend kids anims pf nst'
+          | None => LErr 5
+          end
+        else
         match proc (mkPctx par iend dbegin preserve lang (negb (ekind_eqb k KSet))) c with
         | PErr e => LErr e
         | PSkip =>
             match x_tail c with
-            | Some t => if k_is_mixed k && par then children_loop l' None (kids ++ [anon_span k preserve lang t]) anims pf
-                        else children_loop l' iend kids anims pf
-            | None => children_loop l' iend kids anims pf
+            | Some t => if k_is_mixed k && par then children_loop l' None (kids ++ [anon_span k preserve lang t]) anims pf nst
+                        else children_loop l' iend kids anims pf nst
+            | None => children_loop l' iend kids anims pf nst
             end
         | POk r =>
             let iend' :=
@@ -183,9 +195,9 @@ Section Children.
             let anims' := match r_anim r with Some a => anims ++ [a] | None => anims end in
             match x_tail c with
             | Some t => if k_is_mixed k && par
-                        then children_loop l' None (kids' ++ [anon_span k preserve lang t]) anims' (pf || r_pushfail r)
-                        else children_loop l' iend' kids' anims' (pf || r_pushfail r)
-            | None => children_loop l' iend' kids' anims' (pf || r_pushfail r)
+                        then children_loop l' None (kids' ++ [anon_span k preserve lang t]) anims' (pf || r_pushfail r) nst
+                        else children_loop l' iend' kids' anims' (pf || r_pushfail r) nst
+            | None => children_loop l' iend' kids' anims' (pf || r_pushfail r) nst
             end
         end
     end.
@@ -252,15 +264,19 @@ Fixpoint process (ev : env) (pc : pctx) (x : xml) {struct x} : pres :=
         (* process text nodes *)
         let kids0 := match txt with Some t => if mixed then [anon_span k preserve lang t] else [] | None => [] end in
         let iend1 := match txt with Some t => if mixed then None else iend0 | None => iend0 end in
-        match children_loop (process ev) k par dbegin preserve lang cs iend1 kids0 [] false with
+        match children_loop (process ev) (e_to_model ev) (e_valid ev) k par dbegin preserve lang cs iend1 kids0 [] false [] with
         | LErr e => PErr e
-        | LDone iend kids anims pf =>
+        | LDone iend kids anims pf nst =>
+            (* referential styling last among the inherited sources: it has the lowest priority (set-if-absent) *)
+            match (if k_has_styles k then referential (e_valid ev) (e_styles ev) (rev (style_refs attrs)) nst else Some nst) with
+            | None => PErr 5
+            | Some st1 =>
             let '(pushed, ok) := if k_has_children k then push_children k kids else ([], true) in
             let rid := if ekind_eqb k KRegion then get_attr attrs A_id else None in
             if negb ok then
-              (* push_children raised: logged, and process returns before the end/begin are set *)
+              (* push_children raised: logged, and process returns before the end/begin and the specified styles are set *)
               POk (mkCres k dbegin None
-                     (if ekind_eqb k KSet then None else Some (MElem k rid None None preserve lang region anims pushed))
+                     (if ekind_eqb k KSet then None else Some (MElem k rid None None preserve lang region st1 anims pushed))
                      None true)
             else
             let dend := desired_end ibegin dbegin eend edur iend in
@@ -269,28 +285,31 @@ Fixpoint process (ev : env) (pc : pctx) (x : xml) {struct x} : pres :=
             if ekind_eqb k KSet then
               POk (mkCres k dbegin dend None
                      (if pc_has_elem pc then
-                        match find (fun av => e_style_ok ev (fst av) (snd av)) attrs with
-                        | Some (q, v) => Some (q, v, dbegin, dend)
+                        match first_animated (e_to_model ev) (e_valid ev) attrs with
+                        | Some (p, v) => Some (p, v, dbegin, dend)
                         | None => None
                         end
                       else None) pf)
             else
-              POk (mkCres k dbegin dend (Some (MElem k rid mb me preserve lang region anims pushed)) None pf)
+              (* specified styling overwrites *)
+              let st2 := if k_has_styles k then apply_specified (e_to_model ev) (e_valid ev) attrs st1 else st1 in
+              POk (mkCres k dbegin dend (Some (MElem k rid mb me preserve lang region st2 anims pushed)) None pf)
+            end
         end
       end end end end
     end
   end.
 
 (* ---- the document walk ------------------------------------------------------------------ *)
-Record rdoc := mkRdoc { d_lang : text ; d_regions : list mnode ; d_body : option mnode }.
+Record rdoc := mkRdoc { d_lang : text ; d_regions : list mnode ; d_body : option mnode ; d_initials : sdict }.
 Inductive dres := DErr (code : Z) | DOk (d : rdoc).
 
-Definition region_id (n : mnode) : text := match n with MElem _ (Some i) _ _ _ _ _ _ _ => i | _ => [] end.
+Definition region_id (n : mnode) : text := match n with MElem _ (Some i) _ _ _ _ _ _ _ _ => i | _ => [] end.
 
 (* LayoutElement.from_xml: every region child with an id is registered *)
-Fixpoint read_layout (ev : env) (preserve : bool) (lang : text) (l : list xml) (acc : list mnode) : option (list mnode) + Z :=
+Fixpoint read_layout (ev : env) (preserve : bool) (lang : text) (l : list xml) (acc : list mnode) : list mnode + Z :=
   match l with
-  | [] => inl (Some acc)
+  | [] => inl acc
   | c :: l' =>
       if qname_eqb (x_tag c) T_region then
         match process ev (mkPctx true None 0%Q preserve lang true) c with
@@ -304,47 +323,60 @@ Fixpoint read_layout (ev : env) (preserve : bool) (lang : text) (l : list xml) (
       else read_layout ev preserve lang l' acc
   end.
 
-(* HeadElement.from_xml: only the first layout child is read (styling is the business of ImscStyles.v) *)
-Fixpoint read_head (ev : env) (preserve : bool) (lang : text) (l : list xml) : option (list mnode) + Z :=
+(* HeadElement.from_xml: children in document order; the first layout and the first styling only.  Regions read before
+   the styling element see an empty style table. *)
+Record hstate := mkH { h_layout : bool ; h_styling : bool ; h_regions : list mnode ; h_styles : list sty ; h_initials : sdict }.
+Fixpoint read_head (tr : Z) (fr : Q) (tm : qname -> text -> option (Z * sv)) (vl : Z -> sv -> bool)
+                   (preserve : bool) (lang : text) (l : list xml) (h : hstate) : hstate + Z :=
   match l with
-  | [] => inl None
+  | [] => inl h
   | c :: l' =>
       if qname_eqb (x_tag c) T_layout then
-        read_layout ev (read_space (x_attrs c) preserve) (read_lang (x_attrs c) lang) (x_children c) []
-      else read_head ev preserve lang l'
+        if h_layout h then read_head tr fr tm vl preserve lang l' h
+        else
+          match read_layout (mkEnv tr fr [] tm vl (h_styles h)) (read_space (x_attrs c) preserve) (read_lang (x_attrs c) lang) (x_children c) [] with
+          | inr e => inr e
+          | inl rs => read_head tr fr tm vl preserve lang l' (mkH true (h_styling h) (h_regions h ++ rs) (h_styles h) (h_initials h))
+          end
+      else if qname_eqb (x_tag c) T_styling then
+        if h_styling h then read_head tr fr tm vl preserve lang l' h
+        else
+          let '(t, ini) := read_styling tm vl (x_children c) (h_styles h) (h_initials h) in
+          read_head tr fr tm vl preserve lang l' (mkH (h_layout h) true (h_regions h) (flatten t) ini)
+      else read_head tr fr tm vl preserve lang l' h
   end.
 
 (* TTElement.from_xml: children in document order; first body and first head only *)
-Fixpoint read_tt_children (tr : Z) (fr : Q) (sty : qname -> text -> bool) (preserve : bool) (lang : text) (l : list xml)
-                          (has_body has_head : bool) (regions : list mnode) (body : option mnode) : dres :=
+Fixpoint read_tt_children (tr : Z) (fr : Q) (tm : qname -> text -> option (Z * sv)) (vl : Z -> sv -> bool)
+                          (preserve : bool) (lang : text) (l : list xml)
+                          (has_body has_head : bool) (h : hstate) (body : option mnode) : dres :=
   match l with
-  | [] => DOk (mkRdoc lang regions body)
+  | [] => DOk (mkRdoc lang (h_regions h) body (h_initials h))
   | c :: l' =>
       if qname_eqb (x_tag c) T_body then
-        if has_body then read_tt_children tr fr sty preserve lang l' has_body has_head regions body
+        if has_body then read_tt_children tr fr tm vl preserve lang l' has_body has_head h body
         else
-          match process (mkEnv tr fr (List.map region_id regions) sty) (mkPctx true None 0%Q preserve lang true) c with
+          match process (mkEnv tr fr (List.map region_id (h_regions h)) tm vl (h_styles h)) (mkPctx true None 0%Q preserve lang true) c with
           | PErr e => DErr e
-          | POk r => read_tt_children tr fr sty preserve lang l' true has_head regions (r_node r)
-          | PSkip => read_tt_children tr fr sty preserve lang l' true has_head regions None
+          | POk r => read_tt_children tr fr tm vl preserve lang l' true has_head h (r_node r)
+          | PSkip => read_tt_children tr fr tm vl preserve lang l' true has_head h None
           end
       else if qname_eqb (x_tag c) T_head then
-        if has_head then read_tt_children tr fr sty preserve lang l' has_body has_head regions body
+        if has_head then read_tt_children tr fr tm vl preserve lang l' has_body has_head h body
         else
-          match read_head (mkEnv tr fr [] sty) (read_space (x_attrs c) preserve) (read_lang (x_attrs c) lang) (x_children c) with
+          match read_head tr fr tm vl (read_space (x_attrs c) preserve) (read_lang (x_attrs c) lang) (x_children c) h with
           | inr e => DErr e
-          | inl (Some rs) => read_tt_children tr fr sty preserve lang l' has_body true (regions ++ rs) body
-          | inl None => read_tt_children tr fr sty preserve lang l' has_body true regions body
+          | inl h' => read_tt_children tr fr tm vl preserve lang l' has_body true h' body
           end
-      else read_tt_children tr fr sty preserve lang l' has_body has_head regions body
+      else read_tt_children tr fr tm vl preserve lang l' has_body has_head h body
   end.
 
 (* reader.to_model on a <tt> root; DErr 2 when the frame rate multiplier has a zero denominator *)
-Definition read_tt (sty : qname -> text -> bool) (x : xml) : dres :=
+Definition read_tt (tm : qname -> text -> option (Z * sv)) (vl : Z -> sv -> bool) (x : xml) : dres :=
   let attrs := x_attrs x in
   let preserve := read_space attrs false in
   let lang := match get_attr attrs A_lang with Some l => l | None => [] end in
   match extract_frame_rate attrs with
   | None => DErr 2
-  | Some fr => read_tt_children (extract_tick_rate attrs) fr sty preserve lang (x_children x) false false [] None
+  | Some fr => read_tt_children (extract_tick_rate attrs) fr tm vl preserve lang (x_children x) false false (mkH false false [] [] []) None
   end.
